@@ -216,13 +216,15 @@ SUBS = ["pkg.s1", "pkg.s2"]
 
 def new_spec() -> dict:
     return {"imports": [], "classes": [], "funcs": [], "mk": [], "uses": [], "attruses": [], "body": [],
-            "fromuses": [], "infer": [], "iuses": [], "comment": 0}
+            "fromuses": [], "infer": [], "iuses": [], "finals": [], "fuses": [], "comment": 0}
 
 
 def render_module(name: str, sp: dict, stub: bool = False) -> str:
     L: list[str] = []
     if sp.get("syntax_error"):
         L.append("def broken(:")
+    if sp.get("finals") or sp.get("fuses"):
+        L.append("from typing import Final, Literal")
     for imp in sp["imports"]:
         kind, tgt = imp[0], imp[1]
         if kind == "import":
@@ -236,6 +238,8 @@ def render_module(name: str, sp: dict, stub: bool = False) -> str:
     for cname, base, t in sp["classes"]:
         L.append(f"class {cname}({base}):" if base else f"class {cname}:")
         L.append(f"    attr: {t}" if stub else f"    attr: {t} = {VAL[t]}")
+    for nm_, val in sp.get("finals", []):        # literal types survive only if the cache keeps last_known_value
+        L.append(f"{nm_}: int" if stub else f"{nm_}: Final = {val}")
     for fname, t in sp["funcs"]:
         L.append(f"def {fname}() -> {t}: ..." if stub else f"def {fname}() -> {t}:\n    return {VAL[t]}")
     for fname, mod, cname in sp["mk"]:
@@ -249,6 +253,8 @@ def render_module(name: str, sp: dict, stub: bool = False) -> str:
             L.append(f"{v} = {mod}.{f}()")
         for v, t, mod, ign in sp.get("iuses", []):
             L.append(f"{v}: {t} = {mod}.i0" + ("  # type: ignore" if ign else ""))
+        for v, val, mod, nm_ in sp.get("fuses", []):
+            L.append(f"{v}: Literal[{val}] = {mod}.{nm_}")
         for v, t, nm, ign in sp["fromuses"]:
             L.append(f"{v}: {t} = {nm}()" + ("  # type: ignore" if ign else ""))
         for h, bad, lazy in sp["body"]:
@@ -286,6 +292,8 @@ def gen_module(rng, name: str, avail: list[str]) -> dict:
         sp["funcs"].append((f"f{k}", rng.choice(TYPES)))
     if rng.random() < 0.7:
         sp["classes"].append(("C0", None, rng.choice(TYPES)))
+    if rng.random() < 0.4:
+        sp["finals"].append(("K0", rng.choice([1, 2, 3])))
     deps = [m for m in avail if m != name]
     rng.shuffle(deps)
     for d in deps[: rng.randint(0, min(2, len(deps)))]:
@@ -306,6 +314,9 @@ def add_use(rng, sp: dict, d: str) -> None:
     if ("import", d) not in sp["imports"]:
         sp["imports"].append(("tc", d) if r > 0.93 else ("import", d))
     r = rng.random()
+    if r < 0.08:
+        sp.setdefault("fuses", []).append((f"l{k}", rng.choice([1, 2, 3]), d, "K0"))
+        return
     if r < 0.12:
         sp.setdefault("infer", []).append((f"i{len(sp.get('infer', []))}", d, rng.choice(["f0", "f1"])))
     elif r < 0.24:
@@ -359,7 +370,8 @@ def gen_program(rng) -> dict:
 
 EDITS = ["ret_type", "ret_type", "attr_type", "body", "body", "comment", "touch", "add_import", "add_cycle",
          "del_import", "del_mod", "add_mod", "add_stub", "del_stub", "toggle_ignore", "add_sub", "del_sub",
-         "lazy_import", "retarget", "syntax", "two_at_once", "follow_imports", "fromsub"]
+         "lazy_import", "retarget", "syntax", "two_at_once", "follow_imports", "fromsub", "mtime_back", "mtime_back",
+         "touch_back", "final_val"]
 
 
 def apply_edit(rng, prog: dict, removed: dict) -> tuple[dict, str]:
@@ -367,6 +379,7 @@ def apply_edit(rng, prog: dict, removed: dict) -> tuple[dict, str]:
     for _ in range(30):
         p = copy.deepcopy(prog)
         p.pop("touch", None)
+        p.pop("mtime_back", None)
         kind = rng.choice(EDITS)
         mods = sorted(p["mods"])
         m = rng.choice(mods)
@@ -388,6 +401,21 @@ def apply_edit(rng, prog: dict, removed: dict) -> tuple[dict, str]:
         if kind == "comment":
             sp["comment"] += 1
             return p, f"comment {m}"
+        if kind == "mtime_back" and sp["funcs"]:
+            # a content change (same size for int<->str) that carries an OLDER mtime: restored backup / os.replace
+            i = rng.randrange(len(sp["funcs"]))
+            f, t = sp["funcs"][i]
+            sp["funcs"][i] = (f, {"int": "str", "str": "int"}.get(t, "int"))
+            p["mtime_back"] = m
+            return p, f"mtime_back {m}.{f}"
+        if kind == "touch_back":
+            p["touch"] = m
+            p["mtime_back"] = m
+            return p, f"touch_back {m}"
+        if kind == "final_val" and sp.get("finals"):
+            nm_, val = sp["finals"][0]
+            sp["finals"][0] = (nm_, rng.choice([x for x in (1, 2, 3) if x != val]))
+            return p, f"final_val {m}.{nm_}"
         if kind == "touch":
             p["touch"] = m
             return p, f"touch {m}"
@@ -491,11 +519,119 @@ def apply_edit(rng, prog: dict, removed: dict) -> tuple[dict, str]:
     return p, "comment main"
 
 
+FEATURE_LIB = '''from typing import Final, Literal, TypedDict, NamedTuple, overload, Generic, TypeVar, Protocol, Callable
+from enum import Enum
+from dataclasses import dataclass
+from lib2 import reexp as reexp
+X: Final = 3
+S: Final = "s"
+Mode = Literal["r", "w"]
+class TD(TypedDict):
+    a: int
+    b: str
+class TDp(TypedDict, total=False):
+    c: int
+class NT(NamedTuple):
+    p: int
+    q: str = "x"
+@overload
+def ov(v: int) -> int: ...
+@overload
+def ov(v: str) -> str: ...
+def ov(v):
+    return v
+T = TypeVar("T")
+class Box(Generic[T]):
+    def __init__(self, v: T) -> None:
+        self.v = v
+    def get(self) -> T:
+        return self.v
+class Proto(Protocol):
+    def meth(self) -> int: ...
+class Color(Enum):
+    RED = 1
+    BLUE = 2
+@dataclass
+class DC:
+    n: int
+    s: str = "d"
+@dataclass(frozen=True)
+class FDC:
+    n: int
+class WithProp:
+    @property
+    def pr(self) -> int:
+        return 1
+    @staticmethod
+    def sm() -> str:
+        return ""
+    @classmethod
+    def cm(cls) -> "WithProp":
+        return cls()
+def cb(f: Callable[[int, str], bool], *a: int, k: str = "k", **kw: float) -> None: ...
+tup: tuple[int, ...] = ()
+opt: int | None = None
+__all__ = ["X", "Mode", "TD", "NT", "ov", "Box", "Color", "DC"]
+'''
+FEATURE_USE = '''from typing import Literal
+import lib
+from lib import *
+def f(v: Literal[3]) -> None: ...
+f(lib.X)
+reveal_type(lib.X)
+reveal_type(lib.S)
+m: lib.Mode = "r"
+reveal_type(m)
+td: lib.TD = {"a": 1, "b": "s"}
+reveal_type(td)
+tdp: lib.TDp = {}
+reveal_type(tdp)
+nt = lib.NT(1)
+reveal_type(nt)
+reveal_type(nt.q)
+reveal_type(lib.ov(1))
+reveal_type(lib.ov("s"))
+reveal_type(lib.ov)
+b = lib.Box(1)
+reveal_type(b)
+reveal_type(b.get())
+class Impl:
+    def meth(self) -> int:
+        return 1
+p: lib.Proto = Impl()
+reveal_type(lib.Color.RED)
+reveal_type(lib.Color.RED.value)
+def g(c: lib.Color) -> int:
+    if c is lib.Color.RED:
+        return 1
+    elif c is lib.Color.BLUE:
+        return 2
+d = lib.DC(1)
+reveal_type(d)
+reveal_type(lib.DC)
+reveal_type(d.s)
+fd = lib.FDC(1)
+fd.n = 2
+reveal_type(lib.reexp())
+lib.hidden
+w = lib.WithProp()
+reveal_type(w.pr)
+reveal_type(lib.WithProp.sm())
+reveal_type(lib.WithProp.cm())
+reveal_type(X)
+reveal_type(lib.cb)
+reveal_type(lib.tup)
+reveal_type(lib.opt)
+Color.RED
+WithProp
+'''
+
+
 def hand_histories() -> list[dict]:
     """Fixed histories run first in every tier: the `from pkg import name` probe (finding F6) and its relatives."""
     def H(idx, key, roots, *files):
         return {"idx": idx, "roots": roots, "key": key, "descs": ["initial"] + [f"hand-edit-{i}" for i in range(1, len(files))],
-                "states": [{"files": f, "touch": [], "flags": []} for f in files]}
+                "states": [{"files": f, "touch": [], "flags": [], "mtimes": {}} for f in files]}
     sub = "def f0() -> int:\n    return 0\n"
     b0 = {"main.py": "from pkg import name\n", "pkg/__init__.py": ""}
     b1 = dict(b0, **{"pkg/name.py": sub})
@@ -532,7 +668,46 @@ def hand_histories() -> list[dict]:
     c0 = {"main.py": "import y\nimport x\n", "x.py": "import y\nv: int = y.w0\n",
           "y.py": "import z\ndef g() -> int:\n    return 1\nw0 = g()\n", "z.py": "import x\nZ = 1\n"}
     c1 = dict(c0, **{"z.py": "Z = 1\n"})
-    return [
+    extra = []
+    # (a) a submodule imported as `from a.b import c` / `import a.b.c` / `from a.b.c import f` is DELETED at depth 2, 3, 4
+    #     while the importer is untouched (exist_removed_submodules must force a re-parse of the importer)
+    modsrc = "def f0() -> int:\n    return 0\n"
+    n_ = 9020
+    for depth in (2, 3, 4):
+        parts = ["pa", "pb", "pc", "pd"][:depth]
+        files = {"/".join(parts[:i]) + "/__init__.py": "" for i in range(1, depth)}
+        files["/".join(parts) + ".py"] = modsrc
+        full, parent, last = ".".join(parts), ".".join(parts[:-1]), parts[-1]
+        for form, src in (("from-parent-import-mod", f"from {parent} import {last}\ny: str = {last}.f0()\n"),
+                          ("import-full", f"import {full}\ny: str = {full}.f0()\n"),
+                          ("from-full-import-name", f"from {full} import f0\ny: str = f0()\n")):
+            with_mod = dict(files, **{"main.py": "import user\n", "user.py": src})
+            without = {k: v for k, v in with_mod.items() if k != "/".join(parts) + ".py"}
+            extra.append(H(n_, f"directed:submodule-deleted-depth{depth}-{form}", "entry", with_mod, without))
+            n_ += 1
+    # (b) a same-size content change that carries an OLDER / newer mtime (restored backup, os.replace of an older file)
+    a_ = "import b\nx: int = b.f0()\n"
+    sz1, sz2 = "def f0() -> int:\n    return 0 \n", "def f0() -> str:\n    return ''\n"
+    for nm, off in (("older", -1000), ("newer", 1000)):
+        hh = H(n_, f"directed:same-size-edit-with-{nm}-mtime", "all", {"a.py": a_, "b.py": sz1}, {"a.py": a_, "b.py": sz2}, {"a.py": a_, "b.py": sz1})
+        hh["states"][1]["mtimes"] = {"b.py": off}
+        hh["states"][2]["mtimes"] = {"b.py": 2 * off}
+        extra.append(hh)
+        n_ += 1
+    # (c) interface features whose loss in the cache changes a DEPENDANT's diagnostics: check all; touch only the importer;
+    #     then the library; then only the library.  Run under all four configurations (reveal_type makes every detail visible)
+    f0_ = {"lib.py": FEATURE_LIB, "lib2.py": "def reexp() -> int:\n    return 1\nhidden = 1\n", "use.py": FEATURE_USE}
+    hh = H(9040, "directed:interface-features-through-the-cache", "all", f0_, dict(f0_, **{"use.py": FEATURE_USE + "# edited\n"}),
+           dict(f0_, **{"lib.py": FEATURE_LIB + "# edited\n", "use.py": FEATURE_USE + "# edited\n"}),
+           dict(f0_, **{"lib.py": FEATURE_LIB + "# edited\n"}))
+    hh["all_configs"] = True
+    extra.append(hh)
+    # (d) F12: --follow-imports=error --ignore-missing-imports, `import b`, then b.py is deleted
+    hh = H(9050, "F12:follow-imports-error-deleted-module-replays-import-ignored", "entry", {"main.py": "import b\n", "b.py": "X = 1\n"}, {"main.py": "import b\n"})
+    for st_ in hh["states"]:
+        st_["flags"] = ["--follow-imports=error", "--ignore-missing-imports"]
+    extra.append(hh)
+    return extra + [
         H(9016, "F11:cycle-shrunk-member-stays-fresh", "entry", c0, c1),
         H(9010, "directed:trans-dep-hash-of-cycle", "entry", t0, t1),
         H(9015, "F9:implicit-submodule-reference-depends-on-transitive-imports", "entry", t0, t1, t0),
@@ -563,10 +738,22 @@ def gen_history(seed: int, idx: int, steps: int | None = None) -> dict:
         progs.append(prog)
         descs.append(d)
     states = []
-    for p in progs:
-        st = {"files": render(p), "touch": [], "flags": list(p.get("flags") or [])}
+    used: dict[str, set] = {}      # mtimes already used per path: equal mtime+size with different content is mypy's documented
+    prev_files: dict[str, str] = {}  # blind spot - exactly that case is excluded (the offset is moved until the mtime is new)
+    for k_, p in enumerate(progs):
+        st = {"files": render(p), "touch": [], "flags": list(p.get("flags") or []), "mtimes": {}}
         if p.get("touch"):
             st["touch"] = [mod_path(p["touch"], p)] if p["touch"] in p["mods"] else []
+        back = mod_path(p["mtime_back"], p) if p.get("mtime_back") in p["mods"] else None
+        for rel, text in st["files"].items():
+            if prev_files.get(rel) != text or rel in st["touch"]:
+                off = -(10 * k_) - 1000 - 7 * k_ if rel == back else 0
+                while BASE_MTIME + 10 * k_ + off in used.setdefault(rel, set()):
+                    off -= 1
+                used[rel].add(BASE_MTIME + 10 * k_ + off)
+                if off:
+                    st["mtimes"][rel] = off
+        prev_files = dict(st["files"])
         states.append(st)
     return {"idx": idx, "roots": progs[0]["roots"], "states": states, "descs": descs}
 
@@ -586,7 +773,7 @@ def write_state(proj: str, prev: dict | None, st: dict, step: int) -> None:
             os.makedirs(os.path.dirname(p), exist_ok=True)
             with open(p, "w") as f:
                 f.write(text)
-            t = BASE_MTIME + 10 * step
+            t = BASE_MTIME + 10 * step + int((st.get("mtimes") or {}).get(rel, 0))   # explicit offset: may go BACKWARDS
             os.utime(p, (t, t))
     # remove directories that became empty (a deleted package)
     for d, _, _ in sorted(os.walk(proj, topdown=False)):
@@ -837,6 +1024,8 @@ Definition mk_store (l : list (modid * (meta * meta_ex * data))) : store :=
             l empty_store.
 Definition ME := Build_meta.
 Definition XE := Build_meta_ex.
+Definition t_pkg (t : list modid) (m : modid) (s : stamp) : bool := mem m t.
+Definition t_par (t : list (modid * modid)) (m : modid) : option modid := lookup t m.
 Definition t_view (t : list (modid * (stamp * content))) (m : modid) (s : stamp) : content :=
   match find (fun e => Nat.eqb (fst e) m && Nat.eqb (fst (snd e)) s) t with Some e => snd (snd e) | None => 0 end.
 Definition t_tab (t : list (modid * list modid)) (m : modid) (v : content) (o : opts) : list modid :=
@@ -844,20 +1033,20 @@ Definition t_tab (t : list (modid * list modid)) (m : modid) (v : content) (o : 
 Definition case (cont : list (modid * content)) (imps : list (modid * (content * list modid))) (an : list (modid * result))
   (sccs : list (list modid)) (rch : list (modid * modid)) (ents : list (modid * (meta * meta_ex * data)))
   (ign : list modid) (th : list (modid * nat)) (vw : list (modid * (stamp * content)))
-  (prb imp : list (modid * list modid)) (fs : FS) (o : opts) :=
+  (prb imp : list (modid * list modid)) (pk : list modid) (par : list (modid * modid)) (fs : FS) (o : opts) :=
   let c := mk_store ents in
-  (rechecked (t_content cont) (t_view vw) (t_imports imps) (t_tab prb) (t_analyze an) (fun _ => sccs) (t_reach rch) t_sdo (t_thash th) (t_ign ign) c fs o,
-   report fs (fst (run (t_content cont) (t_view vw) (t_imports imps) (t_tab prb) (t_analyze an) (fun _ => sccs) (t_reach rch) t_sdo (t_thash th) (t_ign ign) c fs o 1))).
+  (rechecked (t_content cont) (t_view vw) (t_imports imps) (t_tab prb) (t_analyze an) (fun _ => sccs) (t_reach rch) t_sdo (t_thash th) (t_ign ign) (t_pkg pk) (t_par par) c fs o,
+   report fs (fst (run (t_content cont) (t_view vw) (t_imports imps) (t_tab prb) (t_analyze an) (fun _ => sccs) (t_reach rch) t_sdo (t_thash th) (t_ign ign) (t_pkg pk) (t_par par) c fs o 1))).
 (* the decidable side conditions of the positive theorem: SccFresh (F11), ProbeFresh (F6), KindStable (F7), ImplicitStable (F9) *)
 Definition stab (cont : list (modid * content)) (imps : list (modid * (content * list modid))) (an : list (modid * result))
   (sccs : list (list modid)) (rch : list (modid * modid)) (ents : list (modid * (meta * meta_ex * data)))
   (ign : list modid) (th : list (modid * nat)) (vw : list (modid * (stamp * content)))
-  (prb imp : list (modid * list modid)) (fs : FS) (o : opts) :=
+  (prb imp : list (modid * list modid)) (pk : list modid) (par : list (modid * modid)) (fs : FS) (o : opts) :=
   let c := mk_store ents in
-  (scc_stable (t_content cont) (t_view vw) (t_imports imps) (t_tab prb) (fun _ => sccs) (t_ign ign) c o fs,
+  (scc_stable (t_content cont) (t_view vw) (t_imports imps) (t_tab prb) (fun _ => sccs) (t_ign ign) (t_pkg pk) (t_par par) c o fs,
    probe_fresh (t_content cont) (t_view vw) (t_tab prb) (t_ign ign) c o fs,
    kind_stable (t_content cont) (t_view vw) (t_ign ign) c o fs,
-   implicit_stable (t_content cont) (t_view vw) (t_imports imps) (t_tab prb) (t_tab imp) (fun _ => sccs) (t_reach rch) (t_ign ign) c o fs).
+   implicit_stable (t_content cont) (t_view vw) (t_imports imps) (t_tab prb) (t_tab imp) (fun _ => sccs) (t_reach rch) (t_ign ign) (t_pkg pk) (t_par par) c o fs).
 """
 
 
@@ -900,6 +1089,7 @@ def model_cases(h: dict, res: dict) -> list[dict]:
     view: dict[str, dict] = {}       # cache as read back after the previous runs (records stay on disk)
     ghost: dict[str, tuple] = {}     # ghost fields of the model: (run number, SCC member list) of the call that wrote the entry
     last_write: dict[str, int] = {}
+    last_off: dict[str, int] = {}
     prev_files: dict[str, str] = {}
     skip_next = True                 # step 0 starts from the typeshed-only cache: compared too (everything stale)
     for rec in res["steps"]:
@@ -908,6 +1098,7 @@ def model_cases(h: dict, res: dict) -> list[dict]:
         for rel, text in st["files"].items():
             if prev_files.get(rel) != text or rel in st.get("touch", []):
                 last_write[rel] = k
+                last_off[rel] = int((st.get("mtimes") or {}).get(rel, 0))
         prev_files = dict(st["files"])
         w, c = rec["warm"], rec["cold"]
         ok = bool(w.get("pre")) and bool(c.get("entries")) and w["status"] in (0, 1) and c["status"] in (0, 1) and not w.get("crash")
@@ -917,6 +1108,8 @@ def model_cases(h: dict, res: dict) -> list[dict]:
             try:
                 cont, imps, an, fs, ents, vw, prb, imp = [], [], [], [], [], [], [], []
                 universe = {mod_of_path(f) for st_ in h["states"] for f in st_["files"]}
+                pk = [mods(m) for m in user if os.path.basename(str(w["pre"][m].get("rel"))).startswith("__init__.")]
+                par = [f"({mods(u)}, {mods(u.rsplit('.', 1)[0])})" for u in sorted(universe) if "." in u]
                 o_txt = None
                 for m in user:
                     path = w["pre"][m]["path"]                      # as mypy compares it with meta.path
@@ -924,7 +1117,7 @@ def model_cases(h: dict, res: dict) -> list[dict]:
                     text = st["files"][rel]
                     cid = I(("c", sha1(text)))
                     vid = I(("v", sha1(text), rel.endswith(".pyi")))
-                    sid = I(('s', path, BASE_MTIME + 10 * last_write[rel], len(text.encode())))
+                    sid = I(('s', path, BASE_MTIME + 10 * last_write[rel] + int((last_off.get(rel) or 0)), len(text.encode())))
                     cont.append(f"({mods(m)}, {cid})")
                     fs.append(f"({mods(m)}, {sid})")
                     vw.append(f"({mods(m)}, ({sid}, {vid}))")
@@ -983,7 +1176,7 @@ def model_cases(h: dict, res: dict) -> list[dict]:
                             todo += list(edges[x])
                     reach[i] = seen
                 rch = [f"({mods(m)}, {mods(d)})" for m in user for d in user if idx[d] in reach[idx[m]]]
-                term = (f"case {cl(cont)} {cl(imps)} {cl(an)} {cl(cl(mods(m) for m in s) for s in sccs)} {cl(rch)} {cl(ents)} {cl(mods(m) for m in user if w["pre"][m].get("ignore_all"))} {cl(f"({mods(m)}, {I(('t', w['pre'][m]['thash']))})" for m in user)} {cl(vw)} {cl(prb)} {cl(imp)} {cl(fs)} ({o_txt})")
+                term = (f"case {cl(cont)} {cl(imps)} {cl(an)} {cl(cl(mods(m) for m in s) for s in sccs)} {cl(rch)} {cl(ents)} {cl(mods(m) for m in user if w["pre"][m].get("ignore_all"))} {cl(f"({mods(m)}, {I(('t', w['pre'][m]['thash']))})" for m in user)} {cl(vw)} {cl(prb)} {cl(imp)} {cl(pk)} {cl(par)} {cl(fs)} ({o_txt})")
                 exp_re = sorted(mods(m) for m in set(w["rechecked_modules"]) & uset)
                 exp_rep = {mods(m): [I(("e", tuple(x))) for x in errs(w["entries"][m]["ex"]["errors"])] for m in user
                            if "ex" in w["entries"].get(m, {})}
@@ -1076,6 +1269,10 @@ def correspondence(ctx, hs: list[dict], results: list[dict], limit: int) -> None
                     break
                 if (set(we["meta"]["deps"]), set(we["meta"]["supp"])) != (set(ce["meta"]["deps"]), set(ce["meta"]["supp"])):
                     n_dep += 1
+                    if n_dep <= 2:
+                        ctx.broke("C", "cache_is_function_of_inputs: dependency/suppressed SETS of the warm-left record differ from the cold-left record",
+                                  f"history {r['idx']} [{r['cfg']}] step {rec['k']} module {m}: warm deps {sorted(we['meta']['deps'])} supp {sorted(we['meta']['supp'])}; "
+                                  f"cold deps {sorted(ce['meta']['deps'])} supp {sorted(ce['meta']['supp'])}")
     ctx.cov["cache_records_warm_vs_cold_compared"] = n_cmp
     ctx.cov["cache_records_with_different_dependency_sets"] = n_dep
     bad = 0
@@ -1119,7 +1316,7 @@ def correspondence(ctx, hs: list[dict], results: list[dict], limit: int) -> None
 # ------------------------------------------------------------------ the check
 
 def s_oracle(ctx, hs: list[dict], cfgs: list[str], pre: Prewarmed, base: str, true_cold: bool) -> list[dict]:
-    jobs = [(h, c) for h in hs for c in (cfgs if h["idx"] < 9000 else [x for x in cfgs if x in ("fs-json", "sqlite-bin")] or cfgs)]
+    jobs = [(h, c) for h in hs for c in (cfgs if (h["idx"] < 9000 or h.get("all_configs")) else [x for x in cfgs if x in ("fs-json", "sqlite-bin")] or cfgs)]
     t = time.time()
 
     def one(job):
@@ -1207,7 +1404,7 @@ def run(ctx) -> None:
         t = time.time()
         pre.build(cfgs)
         ctx.log(f"pre-warmed typeshed caches for {cfgs} ({time.time()-t:.0f}s)")
-        nh = ctx.n(int(os.environ.get("C02_QUICK_N", "8")), int(os.environ.get("C02_THOROUGH_N", "300")))
+        nh = ctx.n(int(os.environ.get("C02_QUICK_N", "6")), int(os.environ.get("C02_THOROUGH_N", "300")))
         hs = hand_histories() + [gen_history(ctx.seed, i) for i in range(nh)]
         ctx.cov["histories"] = len(hs)
         ctx.cov["hand_histories"] = len(hs) - nh
